@@ -3,6 +3,8 @@
 The deciding monitor lives in the hook runtime (rt/verif_rt.c): kv_merge_end snapshots the member
 gap vectors of every completed guide-tree node; when kalign_run returns, every snapshot is compared
 with the projection of the final alignment onto the node's members."""
+import os
+
 from vf import common, fmt, gen, kal
 from vf.build import build
 
@@ -60,17 +62,41 @@ def run_case(ck, paths, idx, big, paths_huge=None):
     if rng.random() < 0.3:
         env["OMP_NESTED"] = "true"
     ctx = {"kind": kind, "shape": shape, "type": word, "idx": idx, "big": big, "env": env, "penalties": gp}
-    res, rows = kal.cli_align(ck, paths, recs=recs, word=word, gpo=gp[0], gpe=gp[1], tgpe=gp[2], nthreads=nt, ctx=ctx, env=env, verif_log=log)
-    runrec = [x for x in (res.log or []) if x.get("rec") == "run"]
-    wit = [x for x in (res.log or []) if x.get("rec") == "c10_witness"]
-    if rows is None:
-        if res.proc.rc == 1:
-            ck.violation("rejected-valid-input", res.stderr[-300:], dict(ctx, input=recs))
-        return
+    if not big and rng.random() < 0.2:
+        # library path with a kalign_run that is rejected first (type of the other kind, infinite penalty), then the real run on the same msa:
+        # the monitors reset at every kalign_run and must see a clean run
+        f = ck.tmp(".fa")
+        common.write_bytes(f, fmt.write_fasta(recs))
+        wrong = rng.choice([3, 4]) if kind in ("dna", "rna") else rng.choice([0, 1, 2])
+        ty = kal.TYPES[word]
+        script = ["read 0 %s" % f, "run 0 %d %d -1 -1 -1" % (nt, wrong), "run 0 %d %d inf -1 -1" % (nt, ty),
+                  "run 0 %d %d %s %s %s" % (nt, ty, common.fnum(gp[0] if gp[0] is not None else -1), common.fnum(gp[1] if gp[1] is not None else -1), common.fnum(gp[2] if gp[2] is not None else -1)),
+                  "dump 0", "free 0"]
+        r, lrecs = common.kvdrv(paths, script, env=env, scratch=ck.scratch, verif_log=log, timeout=900, cpu=600)
+        ck.count("runs_after_rejected_calls_on_the_same_msa")
+        if ck.proc_violations(r, dict(ctx, input=recs, script=script), allow_rcs=(0,)):
+            return
+        d = next((x for x in lrecs if x.get("op") == "dump"), None)
+        runs = [x for x in lrecs if x.get("op") == "run"]
+        if d is None or len(runs) != 3 or runs[2]["rc"] != 0:
+            ck.violation("retry-after-rejected-call-failed", "kalign_run after rejected calls on the same msa failed: %s" % runs, dict(ctx, input=recs))
+            return
+        rows = [(x["name"], x["seq"]) for x in d["rows"]]
+        log_recs = common.read_jsonl(log) if os.path.exists(log) else []
+        runrec = [x for x in log_recs if x.get("rec") == "run"]
+        wit = [x for x in log_recs if x.get("rec") == "c10_witness"]
+    else:
+        res, rows = kal.cli_align(ck, paths, recs=recs, word=word, gpo=gp[0], gpe=gp[1], tgpe=gp[2], nthreads=nt, ctx=ctx, env=env, verif_log=log)
+        runrec = [x for x in (res.log or []) if x.get("rec") == "run"]
+        wit = [x for x in (res.log or []) if x.get("rec") == "c10_witness"]
+        if rows is None:
+            if res.proc.rc == 1:
+                ck.violation("rejected-valid-input", res.stderr[-300:], dict(ctx, input=recs))
+            return
     if not runrec:
         ck.note_inconclusive("no run record from the hook runtime")
         return
-    rr = runrec[0]
+    rr = runrec[-1]
     errs = fmt.check_alignment(recs, rows, "output")
     if errs:
         ck.violation("output-invalid", errs[0], dict(ctx, input=recs))
